@@ -10,7 +10,7 @@
 //!   `cpi`                             → `ok metas=<…> infos=<key,…> decl=<n>` | `err:<class>`
 //! Keys are names: `pid` (the program), `sys`, `rent`, `ixs`, `k<N>` (`key_from(N)`).
 use crate::{
-    probe::{key_of_name, name_of_key, show_info},
+    probe::{key_of_name, name_of_key},
     sets::{registry, Direct, HxIxSet, RunArgs, SetEntry, Stash, Trace, PID, STASH, TRACE},
     sexp::Sexp,
 };
@@ -278,6 +278,8 @@ struct RunOut {
 
 #[derive(Default)]
 struct St<'a> {
+    table: bool,
+    idx: usize,
     entry: Option<&'a SetEntry>,
     shape: Option<Sexp>,
     client: Option<Sexp>,
@@ -314,13 +316,31 @@ fn exec<'a>(rec: &mut Recorder, table: &'a [SetEntry], st: &mut St<'a>, line: &s
 fn exec_inner<'a>(rec: &mut Recorder, table: &'a [SetEntry], st: &mut St<'a>, t: &[&str], line: &str) -> String {
     let bad = || "bad-op".to_string();
     match t {
-        ["set", name, shape, disc] => {
-            *st = St::default();
-            let Some(e) = table.iter().find(|e| e.name == *name) else { return bad() };
-            let real_shape = (e.shape)();
-            if real_shape.to_string() != *shape || hex(&(e.disc)()) != *disc {
+        ["table", discs @ ..] => {
+            if discs.len() != table.len() || discs.iter().zip(table).any(|(d, e)| *d != hex(&(e.disc)())) {
                 return bad();
             }
+            *st = St { table: true, ..St::default() };
+            // oracle: the dispatch arms are pairwise distinct
+            let mut ds: Vec<&&str> = discs.iter().collect();
+            ds.sort();
+            ds.dedup();
+            if ds.len() != discs.len() {
+                rec.fail("duplicate_instruction_discriminants", line);
+            }
+            format!("ok {}", discs.len())
+        }
+        ["set", name, shape, idx] => {
+            if !st.table {
+                return bad();
+            }
+            let Some(idx) = small_dec(idx, 3) else { return bad() };
+            let Some(e) = table.get(idx as usize) else { return bad() };
+            let real_shape = (e.shape)();
+            if e.name != *name || real_shape.to_string() != *shape {
+                return bad();
+            }
+            *st = St { table: true, idx: idx as usize, ..St::default() };
             let (min, len, copt) = (e.statics)();
             st.entry = Some(e);
             st.shape = Some(real_shape.clone());
@@ -547,11 +567,10 @@ fn exec_inner<'a>(rec: &mut Recorder, table: &'a [SetEntry], st: &mut St<'a>, t:
                 (c, _) => {
                     if c == "err:Custom1006" && has_absent && !(e.statics)().2 && o_has_opt(&shape) {
                         rec.fail("cpi_array_of_option_absent_missing_program", &format!("set {} client {client}: CPI -> {c}", e.name));
-                        "err:missingprog".into()
                     } else {
                         rec.fail("cpi_fails", &format!("set {} client {client}: CPI -> {c}", e.name));
-                        c.to_string()
                     }
+                    if c == "err:Custom1006" { "err:missingprog".into() } else { c.to_string() }
                 }
             }
         }
@@ -670,7 +689,7 @@ fn enumerate(shape: &Sexp, len: usize, ctr: &mut u64, cap: usize) -> Vec<Sexp> {
     v
 }
 
-fn emit_group(rec: &mut Recorder, table: &[SetEntry], st: &mut St<'_>, rng: &mut Rng, shape: &Sexp, client: &Sexp, perturb: bool) {
+fn emit_group<'a>(rec: &mut Recorder, table: &'a [SetEntry], st: &mut St<'a>, rng: &mut Rng, shape: &Sexp, client: &Sexp, perturb: bool) {
     exec(rec, table, st, &format!("client {client}"));
     let n = st.metas.len();
     let mut tampered = false;
@@ -791,10 +810,11 @@ pub fn run(args: &Args) {
     }
     let mut rng = Rng::new(args.seed);
     let thorough = args.thorough();
+    let table_line = format!("table {}", table.iter().map(|e| hex(&(e.disc)())).collect::<Vec<_>>().join(" "));
     let (enum_cap, n_random) = if thorough { (512, 400) } else { (64, 40) };
     for (si, e) in table.iter().enumerate() {
         let shape = (e.shape)();
-        let header = format!("set {} {shape} {}", e.name, hex(&(e.disc)()));
+        let header = format!("set {} {shape} {si}", e.name);
         // ---- boundary enumeration
         for len in 0..=2usize {
             let mut ctr = 0u64;
@@ -804,6 +824,7 @@ pub fn run(args: &Args) {
             }
             rec.case(&format!("case {si}.{len} enum {}", e.name));
             let mut st = St::default();
+            exec(&mut rec, &table, &mut st, &table_line);
             exec(&mut rec, &table, &mut st, &header);
             for v in &vals {
                 emit_group(&mut rec, &table, &mut st, &mut rng, &shape, v, false);
@@ -815,6 +836,7 @@ pub fn run(args: &Args) {
         // ---- random
         rec.case(&format!("case {si}.r random {}", e.name));
         let mut st = St::default();
+        exec(&mut rec, &table, &mut st, &table_line);
         exec(&mut rec, &table, &mut st, &header);
         for _ in 0..n_random {
             let mut g = Gen { rng: &mut rng, next_key: 0, special: 6 };
